@@ -199,6 +199,7 @@ func run1(c *tcpm.Case, lifecycle bool) (f *vh.Failure, m *tcpm.Model, info map[
 		a := tcpassembly.NewAssembler(pool)
 		a.MaxBufferedPagesPerConnection = c.MaxPerConn
 		a.MaxBufferedPagesTotal = c.MaxTotal
+		maxPkt := 0
 		for i := range c.Ops {
 			op := &c.Ops[i]
 			r.op = i
@@ -211,7 +212,11 @@ func run1(c *tcpm.Case, lifecycle bool) (f *vh.Failure, m *tcpm.Model, info map[
 				nf, t := mkTCP(c, op.Seg)
 				a.AssembleWithTimestamp(nf, t, ts(op.Ts))
 				if lifecycle {
-					extra := pagesOf(op.Seg.Len)
+					// A queue can only shrink when a packet of its own connection (or a flush) comes: after a large
+					// packet it legitimately stays at limit + pages(that packet) while other connections' packets are
+					// processed, so the allowance is the largest packet seen so far, not the current one.
+					maxPkt = max(maxPkt, pagesOf(op.Seg.Len))
+					extra := maxPkt
 					if c.MaxTotal > 0 {
 						if used := tcpassembly.VerifPagesUsed(a); used > c.MaxTotal+extra {
 							r.failf("tcpassembly:3:total-limit", "pages in use %d exceed total limit %d by more than the %d pages of the packet just processed", used, c.MaxTotal, extra)
